@@ -609,8 +609,18 @@ class Interp(object):
             elif k == "index":
                 iv = st.locals.get(p["local"])
                 loc = self.index_loc(st, loc, iv)
+            elif k == "constindex" and p.get("from_end") and loc[0] == "slice" and loc[2] is not None:
+                # `[.., a, b]` on a bounded piece of the buffer: counted from its end
+                loc = self.index_loc(st, loc, sub(sub(loc[2], int(p.get("offset", p.get("i")))), loc[1]))
             elif k == "constindex":
                 loc = self.index_loc(st, loc, p.get("offset", p.get("i")))
+            elif k == "subslice" and loc[0] == "slice" and (loc[2] is not None or not p.get("from_end")):
+                # `[head @ .., a, b, c]` / `[a, rest @ ..]` on a piece of the buffer (the pattern's length test precedes it in the MIR)
+                lo_ = add(loc[1], int(p["from"]))
+                hi_ = sub(loc[2], int(p["to"])) if p.get("from_end") else add(loc[1], int(p["to"]))
+                if self.compare("Le", lo_, hi_) != 1:
+                    raise Undecided("sub-slice pattern on a piece that may be too short")
+                loc = ("slice", lo_, hi_)
             elif k == "subslice" and loc[0] == "local" and not p.get("from_end"):
                 # `[a, rest @ ..]` on a local array: the tail as a value
                 loc = ("sub", loc, int(p["from"]), int(p["to"]))
@@ -1195,6 +1205,15 @@ class Interp(object):
             if isinstance(args[1], Closure):
                 return Adt("core::option::Option", 1, "Some", [self.exec_closure(st, args[1], [])])
             raise Undecided("bool::then with an unmodelled closure")
+        if c == "core::option::Option::<T>::zip" and len(args) == 2 and all(isinstance(a, Adt) for a in args):
+            if args[0].vname == "Some" and args[1].vname == "Some":
+                return Adt("core::option::Option", 1, "Some", [Tup([args[0].fields[0], args[1].fields[0]])])
+            return Adt("core::option::Option", 0, "None", [])
+        if c in ("core::option::Option::<T>::map", "core::option::Option::<T>::and_then") and len(args) == 2 and isinstance(args[0], Adt) and isinstance(args[1], Closure):
+            if args[0].vname == "None":
+                return args[0]
+            r_ = self.exec_closure(st, args[1], [args[0].fields[0]])
+            return Adt("core::option::Option", 1, "Some", [r_]) if c.endswith("::map") else r_
         if c in ("core::ops::FnOnce::call_once", "core::ops::FnMut::call_mut", "core::ops::Fn::call") and len(args) == 2:
             # a closure value applied to its argument tuple (what the normalising pass leaves of `opt.map_or(d, |x| ..)` when the body is too large to inline)
             clo = args[0]
